@@ -14,6 +14,7 @@ _COND_CUT = [
     '_ZNK15CPPPreprocessor19is_manifest_definedERK' + _S,
     '_ZNK15CPPPreprocessor16expand_manifestsER' + _S + 'bRKSt13unordered_setIPK11CPPManifestSt4hashISA_ESt8equal_toISA_ESaISA_EE',
     '_ZN19CPPExpressionParser10parse_exprERK' + _S + 'RK15CPPPreprocessor',
+    '_ZNK13CPPExpression8evaluateEv',
     '_ZN15CPPPreprocessor23handle_define_directiveERK' + _S + _LOC,
     '_ZN15CPPPreprocessor22handle_error_directiveERK' + _S + _LOC,
 ]
@@ -53,7 +54,7 @@ def _cond(level, part, decor=0):
         hid = 'c09_chars_d%d_%02d' % (decor, part)
         qd = {'NLINES': 3, 'NPARTS': _QC, 'PART': part, 'CHARLEVEL': 1, 'DECOR': decor}
         td = {'NLINES': 4, 'NPARTS': _TC, 'PART': part, 'CHARLEVEL': 1, 'DECOR': decor}
-        cut = _COND_CUT[5:]
+        cut = _COND_CUT[5:]   # the character level stays real
     us = dict(_STR_US)
     us[_GEN] = 8
     for f in _REC:
@@ -94,3 +95,5 @@ PROPERTY_INFO = {'C09': {'level': 'model_checking',
          'assumptions': []}}
 
 NOT_APPLICABLE = {}
+HARNESSES.append(dict(_cond('t', 0), id='c09_tmp', src='/var/tmp/a_c09c17/t5.cxx', tiers=('none',), models=['strdisjunct.c', '/var/tmp/a_c09c17/detect.c']))
+HARNESSES[-1]['bounds'] = {'quick': dict(HARNESSES[-1]['bounds']['quick'], unwind=6, cap=4, unwindset={k: v for k, v in HARNESSES[-1]['bounds']['quick']['unwindset'].items() if k != _GEN})}
